@@ -27,28 +27,28 @@ import (
 func init() {
 	core.Register(&core.Part{
 		Name: "C01.cluster", Prop: "C01", Race: true,
-		Cases: func(tier string) int { return tierN(tier, 50, 2000) },
+		Cases: func(tier string) int { return tierN(tier, 50, 1200) },
 		Run: func(tier string, seed uint64, idx int) core.Result {
 			return runCluster("C01", "C01.cluster", tier, seed, idx)
 		},
 		Rule: "4 clients (puts with unique values, deletes, a few delete-ranges over 8 keys) against 5 real nodes (RF 3, 2 spares) under the real coordinator ShardController while 8..14 nemesis steps run (leader crash/restart with and without notification, node crashes to the flushed database image, stalled followers, node swaps, coordinator deaths and restarts, lost/delayed coordination messages); at the end faults stop, a leader is awaited (bounded; none => inconclusive) and every key is read from it; " +
 			"oracle per key, from call/return ticks of one logical clock: the final value must not come from a write that had returned before an acknowledged write or delete of that key was invoked; an absent key is legal only if some delete could be ordered after every acknowledged put; a final value nobody wrote is a violation; the same check is made on every later leader's first read of a key (on-line, after each election); " +
 			"non-trivial = >= 2 leaders served acknowledged writes and >= 30 acknowledged writes; distinct = (fault level, history hash)",
-		MinNontrivial:    func(tier string) int { return tierN(tier, 20, 800) },
+		MinNontrivial:    func(tier string) int { return tierN(tier, 20, 480) },
 		RequiredCounters: []string{"acked_writes", "final_keys_checked", "leaders_that_acked", "swaps_started", "coordinator_deaths", "leader_failures"},
 		CaseTimeoutS:     240,
 		Weight:           2,
 	})
 	core.Register(&core.Part{
 		Name: "C02.history", Prop: "C02", Race: true,
-		Cases: func(tier string) int { return tierN(tier, 50, 2000) },
+		Cases: func(tier string) int { return tierN(tier, 50, 1200) },
 		Run: func(tier string, seed uint64, idx int) core.Result {
 			return runCluster("C02", "C02.history", tier, seed, idx)
 		},
 		Rule: "5 clients (put, conditional put on the version last seen, delete, get; 6 keys; unique values) under the same nemesis as C01; each operation is recorded at the client boundary with call/return ticks of one logical clock, the serving node and its term; an operation that failed or timed out stays open until the end of the history (it may take effect later, once, or never) and retires its client id; " +
 			"oracle: porcupine (per-key partitions) against a register model: put/conditional put/delete take effect atomically, a get served in term t while no higher term had been stored by the coordinator when it returned must return the latest value, a get served by a node whose term had already been superseded may return any earlier committed value of the key, never a value that was not written or not yet written; every version id is reported with one value only; final reads on the last leader close the history; checker timeout => inconclusive; " +
 			"non-trivial = >= 150 completed operations, >= 2 serving leaders; distinct = history hash",
-		MinNontrivial:    func(tier string) int { return tierN(tier, 20, 800) },
+		MinNontrivial:    func(tier string) int { return tierN(tier, 20, 480) },
 		RequiredCounters: []string{"ops_completed", "ops_open", "strict_reads", "partitions_checked", "serving_leaders", "coordinator_deaths"},
 		CaseTimeoutS:     300,
 		Weight:           2,
